@@ -603,6 +603,12 @@ class Describer:
         return D
 
 
+def pname(fn, i):
+    """parameters are named by position in rendered facts (p1 = self / first parameter): renaming a parameter must not
+    change what a fact says"""
+    return "p%d" % i
+
+
 def norm_elem(s, idx):
     if s is None:
         return None
@@ -650,7 +656,7 @@ def render_slice(S, fn):
     if S is None:
         return "?"
     if S[0] == "p":
-        n = fn["locals"][S[1]][1] or "_%d" % S[1]
+        n = pname(fn, S[1])
         if S[2] == 0 and S[3] is None:
             return n
         if S[3] is None:
@@ -665,7 +671,7 @@ def render_slice(S, fn):
     if S[0] == "subv":
         return "%s[%s..]" % (render_slice(S[1], fn), render_value(S[2], fn))
     if S[0] == "subp":
-        n = fn["locals"][S[2]][1] or "_%d" % S[2]
+        n = pname(fn, S[2])
         return "%s[%s+%d..%s+%d]" % (render_slice(S[1], fn), n, S[3], n, S[4])
     return "?"
 
@@ -683,7 +689,7 @@ def render_value(D, fn):
     if t == "elem":
         return "%s[%s]" % (render_slice(D[1], fn), render_value(D[2], fn))
     if t == "pv":
-        return fn["locals"][D[1]][1] or "_%d" % D[1]
+        return pname(fn, D[1])
     if t == "i":
         return "i"
     if t == "bin":
@@ -691,7 +697,7 @@ def render_value(D, fn):
     if t == "res":
         return "res:%s(%s)" % (D[1], ",".join(render_arg(x, fn) for x in D[2] if x is not None))
     if t == "fld":
-        return "%s.%s" % (fn["locals"][D[1]][1] or "_%d" % D[1], ".".join(D[2]))
+        return "%s.%s" % (pname(fn, D[1]), ".".join(D[2]))
     return "v"
 
 
